@@ -23,14 +23,23 @@ Definition beam_spec (b : beam R) (waist_position_um : R) : beam_cfg R :=
      bc_waist_um := round4 (b_waist b / micro);
      bc_waist_pos_um := Param waist_position_um |}.
 
-Definition apod_spec (a : apod R) : apod_cfg R :=
+Definition apod_spec (rg : bool) (a : apod R) : apod_cfg R :=
   match a with
-  | AOff => ACOff | AGaussian f => ACGaussian (f / micro)
+  | AOff => ACOff | AGaussian f => ACGaussian (if rg then round4 (f / micro) else f / micro)
   | ABartlett x => ACBartlett x | ABlackman x => ACBlackman x | AConnes x => ACConnes x | ACosine x => ACCosine x
   | AHamming x => ACHamming x | AWelch x => ACWelch x | AInterpolate l => ACInterpolate l
   end.
 
-Definition as_config_spec (rz : bool) (U : units R) (s : spdc R) : spdc_cfg R :=
+(* magnitude of the period; the sign is dropped (re-derived on import) *)
+Definition poling_spec (rg : bool) (pp : poling R) : pp_cfg R :=
+  match pp with
+  | PolOff => PCOff
+  | PolOn period _ a => PCConfig (Param (round4 (period / micro))) (apod_spec rg a)
+  end.
+
+(* rz / rg: whether the idler waist position / the Gaussian apodization FWHM are rounded like every other number (the two
+   fields the code has exported unrounded; instantiated with the flags the generator reads off the source) *)
+Definition as_config_spec (rz rg : bool) (U : units R) (s : spdc R) : spdc_cfg R :=
   {| c_crystal :=
        {| cc_kind := cs_kind (s_crystal s); cc_pm := cs_pm (s_crystal s);
           cc_phi_deg := round4 (cs_phi (s_crystal s) / deg);
@@ -46,8 +55,5 @@ Definition as_config_spec (rz : bool) (U : units R) (s : spdc R) : spdc_cfg R :=
           pc_threshold := Some (s_threshold s) |};
      c_signal := beam_spec (s_signal s) (round4 (s_zs s / micro));
      c_idler := Param (beam_spec (s_idler s) (if rz then round4 (s_zi s / micro) else s_zi s / micro));   (* explicit *)
-     c_pp := match s_pp s with
-             | PolOff => PCOff
-             | PolOn period _ a => PCConfig (Param (round4 (period / micro))) (apod_spec a)   (* magnitude; sign dropped *)
-             end;
+     c_pp := poling_spec rg (s_pp s);
      c_deff := round4 (s_deff s / (pico / u_volt U)) |}.
